@@ -52,7 +52,7 @@ def undeclared_family(n, profiles, cfgs, seats=None):
 
 def standard(tier, snapshots_cost=1.0):
     """the default mix used by the per-step monitors (C01, C02, C04, C09, C18):
-    quick  : U(3,<=5) x s x T{id,rev} x 11 rules; U(3,<=4) x s x option menus;
+    quick  : U(3,<=4) x s x T{id,rev} x 11 rules, U(3,5) x s x 11 rules; U(3,<=4) x s x every second entry of the option menus (thorough: all);
              U(3,<=4) x withdrawn subsets x 11 rules; x undeclared subsets x mpls(+wigm-prf); U(2,<=8);
              W(4,2,3,{1,2}) x s in {2,3} x 11 rules (4 candidates: qpq restarts, 2-step transfers);
              bullet piles BU(4) of sizes {0,1,2,3,5,8,13} x s in {1,2,3} (exhausting surpluses, tied tails)
@@ -62,12 +62,12 @@ def standard(tier, snapshots_cost=1.0):
     menus = configs.wigm_menu() + configs.meek_menu()
     yield from seats_ties(2, spaces.U(2, 0, 8), cfgs=D)
     yield from seats_ties(3, spaces.U(3, 0, 4), cfgs=D)
-    yield from seats_ties(3, spaces.U(3, 0, 4), ties='id', cfgs=menus)
+    yield from seats_ties(3, spaces.U(3, 0, 4), ties='id', cfgs=menus if tier == 'thorough' else menus[::2])
     yield from withdrawn_family(3, spaces.U(3, 0, 4), D)
     yield from undeclared_family(3, spaces.U(3, 0, 4), [{'rule': 'mpls'}, {'rule': 'wigm-prf'}])
     yield from seats_ties(4, spaces.W(4, 2, 3, (1, 2)), seats=(2, 3), ties='id', cfgs=D)
     yield from seats_ties(4, spaces.BU(4), seats=(1, 2, 3), ties='id', cfgs=D)
-    yield from seats_ties(3, spaces.U(3, 5, 5), cfgs=D)
+    yield from seats_ties(3, spaces.U(3, 5, 5), ties='id' if tier == 'quick' else 'idrev', cfgs=D)
     if tier == 'thorough':
         mw = [{'rule': 'meek'}, {'rule': 'warren'}] + configs.meek_menu(full=False)
         yield from seats_ties(3, spaces.Q(3, 0, 4), ties='id', cfgs=mw)
